@@ -139,4 +139,20 @@ PROPS = {
         'explanation': 'theorems found_small, found_large (with C19 symmetry and C15 framing), not_found, one_packet; step equality of the reply with the '
                        'model; monitors on the real reply and on real transfers',
     },
+    'C09': {
+        'lean_targets': ['Shisui.Props.C09'],
+        'min_obligations': 7,
+        'runs': [{'name': 'offer', 'harness': ['offer'], 'driver': ['C09']},
+                 {'name': 'offer2', 'harness': ['offer2'], 'driver': ['C09'], 'timeout': 1200}],
+        'rule': 'real handleOffer on started nodes: wire version 0/1 per case, 0..6 (1 in 25: 60..64) fresh keys, each in or out of a 2^255 radius, '
+                'stored or not, marked in flight or not; a node with no transfer slots, one with plenty, one with a full validation queue; an '
+                'unsupported version; the decoded ACCEPT (verdict list + connection id present) must equal the model; end to end: offers of 1..6 '
+                'items (sizes 0..3000, some keys already stored at the receiver) between two real instances for three version pairings, the '
+                'element arriving on the receiver\'s validation queue is compared; handleOfferedContents on streams with other item counts and '
+                'truncated streams; non-trivial = at least one key / one accepted item; distinct = distinct lines',
+        'trusted': ['utp-go stream; go-bitfield and fastssz codecs of ACCEPT (C14); semaphore for slots'],
+        'assumptions': ['one offer at a time per receiver in this check (overlapping offers of the same key: see DESIGN, schedule-level finding)'],
+        'explanation': 'theorems verdict_count, accepted_only_if, connid_iff, pairing (+ codec round trips), count_mismatch_dropped; step equality of the '
+                       'decoded ACCEPT; the same clauses as monitors on the real reply; queue contents of real transfers',
+    },
 }
